@@ -290,6 +290,37 @@ class Ctx:
 
         self._drive(prop, state)
 
+    def run_grid(self, cases, check):
+        """Exhaustive enumeration of a finite product of options: runs
+        check(ctx, case) on this shard's slice of `cases` (for sub-checks
+        declared with sweep=True).  The cases are small by construction, so
+        nothing is shrunk; the first failing case is the violation."""
+        for case in cases[self.shard::self.nshards]:
+            try:
+                if set_case_environment(case):
+                    self.counters["cases_with_debug_logging"] += 1
+                try:
+                    with case_timer():
+                        check(self, case)
+                except CaseTimeout:
+                    self.count("slow_case_rerun")
+                    with case_timer(6.0):
+                        check(self, case)
+            except Violation as exc:
+                self.violations.append({"sub": self.sub,
+                                        "case": to_jsonable(case),
+                                        "message": str(exc)})
+                return
+            except Exception as exc:   # noqa
+                if not _from_repo(exc):
+                    raise HarnessError("".join(traceback.format_exception(
+                        type(exc), exc, exc.__traceback__)))
+                self.violations.append({
+                    "sub": self.sub, "case": to_jsonable(case),
+                    "message": "unexpected %s from %s: %s" % (
+                        type(exc).__name__, innermost_repo_frame(exc), exc)})
+                return
+
     def _drive(self, fn, state):
         import hypothesis.errors as he
         try:
